@@ -100,16 +100,38 @@ def strip_rule(ctx, rep):
         o = b.origin(idx[0][1]["args"][1])
         oki = o[0] == "agg" and "RangeTo" in o[1][1] and any(c[4] == pos[0][0] for c in origin_calls(o)) and strip_refs(b.origin(idx[0][1]["args"][0])) == ("arg", 1)
     rep.check("R11.2", "cut", oki, "the result must be input[..first_nul]", b.loc())
-    for name in ("insim_core::string::binrw_parse_codepage_string::{closure#0}", "insim_core::string::binrw_parse_codepage_string_until_eof::{closure#0}"):
-        c = ctx.mir.body(name)
-        if c is None:
-            rep.fail("R11.2", "%s:found" % name.split("::")[-2], "%s not found" % name)
+    for name in ("insim_core::string::binrw_parse_codepage_string", "insim_core::string::binrw_parse_codepage_string_until_eof"):
+        short = name.split("::")[-1]
+        if ctx.mir.body(name) is None:
+            rep.fail("R11.2", "%s:found" % short, "%s not found" % name)
             continue
-        rep.fn(name)
-        st = c.calls_to(r"string::strip_trailing_nul$")
-        conv = c.calls_to(r"codepages::to_lossy_string$|String::from_utf8_lossy$")
-        ok = len(st) == 1 and len(conv) == 2 and all(any(x[4] == st[0][0] for x in origin_calls(c.origin(t["args"][0]))) for _b, t in conv)
-        rep.check("R11.2", "%s:strip-before-convert" % name.split("::")[-2], ok, "both conversions must be applied to the output of strip_trailing_nul", c.loc(), sample={"parser": name.split("::")[-2]})
+        # the parser, its closures and the private helpers of the string module it calls
+        bodies = []
+        work = [name]
+        while work and len(bodies) < 12:
+            n = work.pop()
+            if n in bodies:
+                continue
+            c = ctx.mir.body(n)
+            if c is None:
+                continue
+            bodies.append(n)
+            work.extend(k for k in ctx.mir.bodies if k.startswith(n + "::{closure#") and not k.endswith("#promoted"))
+            for _bb, t in c.calls():
+                d = callee(t)[1] or callee(t)[0] or ""
+                if d.startswith("insim_core::string::") and not d.startswith("insim_core::string::codepages::") and not d.endswith("strip_trailing_nul"):
+                    work.append(d)
+        sites = []
+        for n in bodies:
+            c = ctx.mir.body(n)
+            rep.fn(n)
+            st = c.calls_to(r"string::strip_trailing_nul$")
+            for _b, t in c.calls_to(r"codepages::to_lossy_string$|String::from_utf8_lossy$"):
+                sites.append((n, any(x[4] in [sb for sb, _t in st] for x in origin_calls(c.origin(t["args"][0])))))
+        ok = len(sites) >= 2 and all(okk for _n, okk in sites)
+        rep.check("R11.2", "%s:strip-before-convert" % short, ok,
+                  "both conversions reached from %s must be applied to the output of strip_trailing_nul (conversion sites: %s)" % (short, sites), ctx.mir.body(name).loc(),
+                  sample={"parser": short, "bodies": bodies, "conversion_sites": len(sites)})
     rep.floor("R11.2", 5)
 
 
@@ -242,79 +264,120 @@ INF = float("inf")
 
 
 def interpret(run):
-    """abstract state at the write: dict(lo, hi, exact, aligned, zero_tail, feasible, notes) with K symbolic"""
-    st = {"lo": 0, "hi": INF, "K": None, "aligned": None, "zero_tail": False, "notes": [], "feasible": True, "branch": "fixed"}
-    pending_remaining = None
+    """abstract states at the write, one per semantic case: dict(lo, hi, aligned, zero_tail, notes, branch, pad) with K symbolic.
+    `pad` says whether the padding step appended at least one zero byte ('>0') or none ('=0'); it is decided by the source's
+    own guard (`remaining > 0`, `round_to != len`) when there is one, and by a case split on the amount when the padding call
+    is unguarded (`put_bytes(0, 0)` is a no-op) - so the cases, and the instance keys built from them, do not depend on how
+    the source spells the guard."""
+    import copy
+    states = [{"lo": 0, "hi": INF, "K": None, "aligned": None, "zero_tail": False, "notes": [], "feasible": True, "branch": "fixed", "pad": None, "pending": None}]
     for e in run:
-        if e[0] == "cond":
-            c = e[1]
-            truth = e[-1]
-            if c == "align>1":
-                st["branch"] = "aligned" if truth else "fixed"
-            elif c == "remaining>0":
-                K = e[2]
-                st["K"] = K
-                if truth:
-                    pending_remaining = K          # len < K
-                    if st["hi"] != "K" and st["hi"] is not INF and st["hi"] != K:
-                        pass
-                else:
-                    # K - len == 0  with len <= K  =>  len == K
-                    if st["hi"] == "K":
-                        st["lo"] = "K"
-                        st["notes"].append("remaining == 0: the vector already fills the field")
+        nxt = []
+        for st in states:
+            if e[0] == "cond":
+                c = e[1]
+                truth = e[-1]
+                if c == "align>1":
+                    st["branch"] = "aligned" if truth else "fixed"
+                elif c == "remaining>0":
+                    st["K"] = e[2]
+                    if truth:
+                        st["pending"] = e[2]          # len < K
                     else:
-                        st["notes"].append("remaining == 0 without an upper bound on the length")
-            elif c == "needs_round":
-                st["needs_round"] = truth
-                if not truth:
-                    st["aligned"] = True
-            elif c == "len>K":
-                st["K"] = e[2]
-                if truth:
-                    st["lo"] = "K+1"
-                else:
+                        st["pad"] = "=0"
+                        if st["hi"] == "K":
+                            st["lo"] = "K"
+                            st["notes"].append("remaining == 0: the vector already fills the field")
+                        else:
+                            st["notes"].append("remaining == 0 without an upper bound on the length")
+                elif c == "needs_round":
+                    st["needs_round"] = truth
+                    if not truth:
+                        st["aligned"] = True
+                        st["pad"] = "=0"
+                elif c == "len>K":
+                    st["K"] = e[2]
+                    if truth:
+                        st["lo"] = "K+1"
+                    else:
+                        st["hi"] = "K"
+                nxt.append(st)
+            elif e[0] == "truncate":
+                st["K"] = e[1]
+                if st["hi"] != "K":
                     st["hi"] = "K"
-        elif e[0] == "truncate":
-            st["K"] = e[1]
-            if st["hi"] != "K":
-                st["hi"] = "K"
-                if st["lo"] == "K+1":
-                    st["lo"] = "K"
-                    st["notes"].append("truncate cuts (len > K)")
-                    st["zero_tail"] = False
+                    if st["lo"] == "K+1":
+                        st["lo"] = "K"
+                        st["notes"].append("truncate cuts (len > K)")
+                        st["zero_tail"] = False
+                    else:
+                        if st["zero_tail"]:
+                            st["notes"].append("truncate(K) after the zero padding may cut the padding off")
+                        st["zero_tail"] = False
+                nxt.append(st)
+            elif e[0] == "put_zeros":
+                kind = e[1]
+                if kind == "pad_to":
+                    if st["pending"] is not None:
+                        st["lo"] = st["hi"] = "K"
+                        st["zero_tail"] = True
+                        st["pending"] = None
+                        st["pad"] = ">0"
+                        nxt.append(st)
+                    elif st["hi"] == "K":
+                        # unguarded K - len with len <= K: either nothing is appended (len == K) or at least one zero byte
+                        a = copy.deepcopy(st)
+                        a["lo"] = a["hi"] = "K"
+                        a["pad"] = "=0"
+                        a["notes"].append("padding amount K - len is 0: the vector already fills the field")
+                        b_ = copy.deepcopy(st)
+                        b_["lo"] = b_["hi"] = "K"
+                        b_["zero_tail"] = True
+                        b_["pad"] = ">0"
+                        nxt.extend([a, b_])
+                    else:
+                        st["lo"] = st["hi"] = "K"
+                        st["notes"].append("pad-to K - len without an upper bound on the length (the subtraction can overflow)")
+                        st["hi"] = INF
+                        nxt.append(st)
+                elif kind == "round_up":
+                    if "needs_round" in st:
+                        st["aligned"] = True
+                        if st["needs_round"]:
+                            st["zero_tail"] = True
+                            st["pad"] = ">0"
+                        if st["hi"] == "K":
+                            st["hi"] = "K+a"
+                        nxt.append(st)
+                    else:
+                        a = copy.deepcopy(st)
+                        a["aligned"] = True
+                        a["pad"] = "=0"
+                        a["notes"].append("round-up amount is 0: the length is already a multiple of the alignment")
+                        b_ = copy.deepcopy(st)
+                        b_["aligned"] = True
+                        b_["zero_tail"] = True
+                        b_["pad"] = ">0"
+                        if b_["hi"] == "K":
+                            b_["hi"] = "K+a"
+                        nxt.extend([a, b_])
                 else:
-                    if st["zero_tail"]:
-                        st["notes"].append("truncate(K) after the zero padding may cut the padding off")
-                    st["zero_tail"] = False
-                    # alignment survives only if K is a multiple of the alignment (checked by R11.1)
-        elif e[0] == "put_zeros":
-            kind = e[1]
-            if kind == "pad_to":
-                if pending_remaining is not None:
-                    st["lo"] = st["hi"] = "K"
-                    st["zero_tail"] = True
-                    pending_remaining = None
-                else:
-                    st["lo"] = st["hi"] = "K"
-                    st["notes"].append("pad-to without a `remaining > 0` guard (zero bytes may be 0)")
-            elif kind == "round_up":
-                st["aligned"] = True
-                if st.get("needs_round"):
-                    st["zero_tail"] = True
+                    st["notes"].append("unrecognised padding amount %s" % (e[2],))
+                    st["hi"] = INF
+                    nxt.append(st)
+            elif e[0] == "push":
+                st["zero_tail"] = e[1] == 0
                 if st["hi"] == "K":
-                    st["hi"] = "K+a"
+                    st["hi"] = "K+1"
+                nxt.append(st)
+            elif e[0] in ("put", "other"):
+                st["notes"].append("unmodelled operation %s" % (e,))
+                st["lo"], st["hi"], st["zero_tail"] = 0, INF, False
+                nxt.append(st)
             else:
-                st["notes"].append("unrecognised padding amount %s" % (e[2],))
-                st["hi"] = INF
-        elif e[0] == "push":
-            st["zero_tail"] = e[1] == 0
-            if st["hi"] == "K":
-                st["hi"] = "K+1"
-        elif e[0] in ("put", "other"):
-            st["notes"].append("unmodelled operation %s" % (e,))
-            st["lo"], st["hi"], st["zero_tail"] = 0, INF, False
-    return st
+                nxt.append(st)
+        states = nxt
+    return states
 
 
 WRITERS = [
@@ -352,17 +415,23 @@ def length_domain(ctx, rep):
         rep.check("R11.3", "%s:paths" % label, len(runs) >= 2, "expected at least two length-relevant paths in %s (found %d)" % (label, len(runs)), b.loc(), nontrivial=False)
         seen = {}
         for run in runs:
-            st = interpret(run)
+          for st in interpret(run):
             conds = tuple((e[1], e[-1]) for e in run if e[0] == "cond" and e[1] != "align>1")
             ops = tuple(e[0] + (":" + str(e[1]) if len(e) > 1 and e[0] in ("put_zeros", "truncate") else "") for e in run if e[0] != "cond")
-            tag = "%s:%s:%s" % (label, st["branch"], "/".join("%s=%s" % (c, "T" if t else "F") for c, t in conds) or "-")
-            if tag in seen:
-                continue
-            seen[tag] = st
-            sample = {"writer": label, "branch": st["branch"], "conditions": [list(c) for c in conds], "operations": list(ops),
-                      "len": [str(st["lo"]), str(st["hi"])], "zero_tail": st["zero_tail"], "notes": st["notes"]}
             if label == "mso-writer":
                 st["branch"] = "aligned"
+            tag = "%s:%s:%s" % (label, st["branch"], ("pad" + st["pad"]) if st["pad"] else "-")
+            if tag in seen:
+                # several source paths fall into one semantic case: the case holds only if all of them do
+                prev = seen[tag]
+                prev["zero_tail"] = prev["zero_tail"] and st["zero_tail"]
+                continue
+            seen[tag] = st
+            st["_conds"], st["_ops"] = conds, ops
+        for tag, st in sorted(seen.items()):
+            conds, ops = st["_conds"], st["_ops"]
+            sample = {"writer": label, "branch": st["branch"], "case": st["pad"], "conditions": [list(c) for c in conds], "operations": list(ops),
+                      "len": [str(st["lo"]), str(st["hi"])], "zero_tail": st["zero_tail"], "notes": st["notes"]}
             if st["branch"] == "fixed":
                 ok = st["lo"] == "K" and st["hi"] == "K"
                 rep.check("R11.3", tag + ":exact-width", ok, "%s fixed branch: the written vector has length in [%s, %s], not exactly SIZE (%s)" % (label, st["lo"], st["hi"], st["notes"]), b.loc(), sample=sample)
@@ -371,8 +440,8 @@ def length_domain(ctx, rep):
                 rep.check("R11.3", tag + ":bounded-aligned", ok, "%s aligned branch: length bound %s, multiple of the alignment: %s (%s)" % (label, st["hi"], st["aligned"], st["notes"]), b.loc(), sample=sample)
             if label in ("string-writer",):
                 rep.check("R11.4", tag + ":terminated", st["zero_tail"],
-                          "%s, %s branch, path %s: no zero byte is guaranteed after the last operation that can shorten the text (%s): MST/MSX/MSL/MTC text that fills the field is sent without its NUL terminator"
-                          % (label, st["branch"], conds, "; ".join(st["notes"]) or "no padding on this path"), b.loc(), sample=sample)
+                          "%s, %s branch, case pad%s: no zero byte is guaranteed after the last operation that can shorten the text (%s): MST/MSX/MSL/MTC text that fills the field is sent without its NUL terminator"
+                          % (label, st["branch"], st["pad"], "; ".join(st["notes"]) or "no padding on this path"), b.loc(), sample=sample)
     # the four packets that LFS requires to end in NUL use the analysed writer
     ent, variants = packet_variants(ctx)
     for v in variants:
